@@ -204,6 +204,10 @@ def run(chk, only=None):
                 P = cm.ew_params(ctx)
                 Q2 = ctx.var("Q2", 0, None, wlo=1, whi=20000)
                 E = ctx.var_w("E", 0)  # witness 0: the float re-run (translator validation, replays) switches the Z off with E = 0.0
+                if cell["rel"] == "decouple" and not getattr(ctx, "_e_fixed", False):
+                    # part of the domain (not only of the proof obligations): solver-chosen points of flipped paths then have E = 0 too
+                    ctx.domain.append(E.t == 0)
+                    ctx._e_fixed = True
                 return pairs_for(cell, P, Q2, E=E)
 
             ex = explore.Explorer(ctx, max_paths=16, timeout_ms=3000)
